@@ -351,21 +351,19 @@ Fixpoint enc_nt (ts : list rio_triple) : str :=
   match ts with [] => [] | t :: r => enc_spo t ++ NT_END ++ enc_nt r end.
 
 (* fuel = number of characters; running out of fuel is an error, never a result *)
+Definition at_end (s : str) : option (list rio_triple) :=
+  match s with [] => Some [] | _ => None end.
 Fixpoint dec_nt (fuel : nat) (s : str) : option (list rio_triple) :=
-  match s with
-  | [] => Some []
-  | _ =>
-      match fuel with
-      | O => None
-      | S f =>
-          match dec_spo s with
-          | Some (t, r) =>
-              match strip NT_END r with
-              | Some r' => match dec_nt f r' with Some l => Some (t :: l) | None => None end
-              | None => None
-              end
+  match fuel with
+  | O => at_end s
+  | S f =>
+      match dec_spo s with
+      | Some (t, r) =>
+          match strip NT_END r with
+          | Some r' => match dec_nt f r' with Some l => Some (t :: l) | None => None end
           | None => None
           end
+      | None => at_end s
       end
   end.
 
@@ -417,12 +415,11 @@ Fixpoint dec_ttl_rest (fuel : nat) (cs : subject) (cp : str) (s : str) : option 
               end
           | None =>
               match strip NT_END s with
-              | Some [] => Some []
               | Some r =>
                   match dec_spo r with
                   | Some ((sj, p, o), r') =>
                       match dec_ttl_rest f sj p r' with Some l => Some ((sj, p, o) :: l) | None => None end
-                  | None => None
+                  | None => at_end r
                   end
               | None => None
               end
@@ -430,13 +427,10 @@ Fixpoint dec_ttl_rest (fuel : nat) (cs : subject) (cp : str) (s : str) : option 
       end
   end.
 Definition dec_ttl (s : str) : option (list rio_triple) :=
-  match s with
-  | [] => Some []
-  | _ => match dec_spo s with
-         | Some ((sj, p, o), r) =>
-             match dec_ttl_rest (List.length s) sj p r with Some l => Some ((sj, p, o) :: l) | None => None end
-         | None => None
-         end
+  match dec_spo s with
+  | Some ((sj, p, o), r) =>
+      match dec_ttl_rest (List.length s) sj p r with Some l => Some ((sj, p, o) :: l) | None => None end
+  | None => at_end s
   end.
 
 Definition ser_ttl (ts : list triple) : str := enc_ttl (map to_rio ts).
@@ -586,7 +580,9 @@ Definition opt_triples_eqb (a b : option (list triple)) : bool :=
   option_eqb (list_eqb triple_eqb) a b.
 
 Record case := {
-  c_triples : list triple;            (* built with the validating constructors *)
+  c_checked : bool;                   (* every term built with the validating constructors;
+                                         false: one IRI made with oxrdf's new_unchecked *)
+  c_triples : list triple;
   c_nt : str; c_ttl : str; c_xml : str;               (* RdfSerializer::serialize *)
   c_nt_back : option (list triple);                    (* RdfParser::parse of c_nt; None = Err *)
   c_ttl_back : option (list triple);
@@ -601,16 +597,23 @@ Definition implb' (a b : bool) : bool := negb a || b.
 
 Definition check_case (c : case) : bool :=
   let ts := c_triples c in
-  forallb wf_triple ts
+  let wf := forallb wf_triple ts in
+  implb' (c_checked c) wf
   && str_eqb (ser_nt ts) (c_nt c)
   && str_eqb (ser_ttl ts) (c_ttl c)
   && str_eqb (ser_xml ts) (c_xml c)
   && opt_triples_eqb (parse_nt (c_nt c)) (c_nt_back c)
   && opt_triples_eqb (parse_ttl (c_ttl c)) (c_ttl_back c)
-  (* the round trip fails exactly on the known classes *)
-  && Bool.eqb (opt_triples_eqb (c_nt_back c) (Some ts)) (negb (existsb known_label ts))
-  && Bool.eqb (opt_triples_eqb (c_ttl_back c) (Some ts)) (negb (existsb known_label ts))
-  && Bool.eqb (opt_triples_eqb (c_xml_back c) (Some ts)) (negb (existsb known_xml ts))
+  && (if wf then
+        (* the round trip fails exactly on the known classes *)
+        Bool.eqb (opt_triples_eqb (c_nt_back c) (Some ts)) (negb (existsb known_label ts))
+        && Bool.eqb (opt_triples_eqb (c_ttl_back c) (Some ts)) (negb (existsb known_label ts))
+        && Bool.eqb (opt_triples_eqb (c_xml_back c) (Some ts)) (negb (existsb known_xml ts))
+      else
+        (* an IRI with a character IRIREF cannot carry: nothing comes back unchanged *)
+        negb (opt_triples_eqb (c_nt_back c) (Some ts))
+        && negb (opt_triples_eqb (c_ttl_back c) (Some ts))
+        && negb (opt_triples_eqb (c_xml_back c) (Some ts)))
   (* the model's well-formedness covers everything the constructors accept *)
   && forallb (fun x => implb' (snd x) (iri_ok (fst x))) (c_iris c)
   && forallb (fun x => Bool.eqb (snd x) (bnode_ok (fst x))) (c_labels c)
